@@ -91,7 +91,13 @@ fn step(inst: &mut v1::Instance, op: &str, a: &Value) -> Value {
                     });
                     json!({"tag":"ok","b":optv(&b, |x| from_f64(*x)),
                            "b_approx":optv(&b, |x| approx_rational(*x, 1_000_000)),
-                           "b_is_slack_coef": b.is_some() && Some(coef.unwrap_or(0.0)) == b})
+                           // the SDK drops coefficients with |c| <= f64::EPSILON when it adds functions: an absent
+                           // term stands for a reported b inside that threshold
+                           "b_is_slack_coef": match (b, coef) {
+                               (Some(b), Some(c)) => c == b,
+                               (Some(b), None) => b.abs() <= f64::EPSILON,
+                               _ => false,
+                           }})
                 }
                 Err(e) => {
                     if e.downcast_ref::<ommx::InfeasibleDetected>().is_some() {
